@@ -197,6 +197,18 @@ def check_C01(chk):
             cases.append((L.Suite(0, children=[L.Test(0, body=list(bad)), inner, L.Test(2, body=[("c", 1)])]), rep, "forked"))
             deep = L.Suite(2, children=[L.Test(0, body=list(bad)), L.Suite(3, children=[L.Test(1, body=[("c", 1)])])])
             cases.append((L.Suite(0, children=[L.Suite(1, children=[deep]), L.Test(2, body=[("c", 1)])]), rep, "forked"))
+    # suites without any test (an empty suite, a suite of empty suites) first, in the middle and last among the
+    # entries of a suite - the root or a nested one - that has a failing or dying test of its own
+    for bad in ([("c", 1), ("c", 0)], [("die", "sig", 6)]):
+        for pos in (0, 1, 2):
+            for nested in (False, True):
+                for rep in (L.REPORTERS if chk.tier == "thorough" else ["text", chk.rng.choice(L.REPORTERS[1:])]):
+                    hollow = L.Suite(5, children=[L.Suite(6, children=[])]) if (pos + nested) % 2 else L.Suite(5, children=[])
+                    kids = [L.Test(0, body=[("c", 1)]), L.Test(1, body=list(bad))]
+                    kids.insert(pos, hollow)
+                    owner = L.Suite(1 if nested else 0, children=kids)       # (the driver wants the root to be suite 0)
+                    root = L.Suite(0, children=[owner, L.Test(2, body=[("c", 1)])]) if nested else owner
+                    cases.append((root, rep, "forked"))
     # single-test mode on a few trees
     for i in range(4 if chk.tier == "quick" else 60):
         root = gen_c.gen_tree(chk.rng, max_depth=2)
